@@ -21,7 +21,7 @@ FUNC = c02.FUNC
 CODES = c02.CODES
 
 
-def make_table(rng, frames, frame_numbers):
+def make_table(rng, frames, frame_numbers, reverse_pos=False):
     """build a DataFrame from per-frame coordinates with unusual index / extra columns / row order"""
     ndim = frames[0].shape[1]
     cols = ['x', 'y', 'z'][:ndim][::-1]   # default pos_columns order: (z,) y, x
@@ -51,6 +51,12 @@ def make_table(rng, frames, frame_numbers):
     elif kind == 'float_frame':
         df['frame'] = df['frame'].astype(float)
     df['_rid'] = np.arange(n)     # row identity carried through as an ordinary column
+    if reverse_pos:
+        order = ['frame'] + cols[::-1] + [c for c in df.columns if c not in cols and c != 'frame']   # x before y (before z)
+        df = df[order]
+    elif rng.random() < 0.5:
+        order = list(df.columns); rng.shuffle(order)   # column order must not matter (pos_columns are given or guessed by NAME)
+        df = df[order]
     return df, kind, cols
 
 
@@ -153,7 +159,14 @@ def _run(chk):
         if linkgen.max_inrange(c['frames'], c['sr'], c['memory']) > 8:
             chk.tally('skipped: neighbour cap binding'); continue
         frames = c['frames']
-        entry = chk.rng.choice(['link', 'link', 'link_df_iter', 'link_iter'])
+        entry = chk.rng.choice(['link', 'link', 'link_df_iter', 'link_df_iter', 'link_iter'])
+        if entry != 'link_iter' and c['ndim'] >= 2 and chk.rng.random() < 0.4:
+            # strongly different per-axis ranges: an axis mix-up changes which pairs are within the ellipsoid
+            rr = [Fraction(v) for v in chk.rng.choice([(2, 7), (7, 2), (3, 8), (8, 3), (2, 5)])]
+            c['sr'] = tuple((rr + [Fraction(4)])[:c['ndim']])
+            if linkgen.max_inrange(c['frames'], c['sr'], c['memory']) > 8:
+                chk.tally('skipped: neighbour cap binding'); continue
+            c02.safe_strategy(c)
         # frame numbering: start != 0, gaps (missing frame numbers)
         t0 = chk.rng.choice([0, 0, 1, 5, -3])
         numbers, t = [], t0
@@ -169,9 +182,11 @@ def _run(chk):
                 keep = [(tn, f) for tn, f in zip(numbers, frames) if len(f)]
                 if not keep:
                     continue
-                df, kind, cols = make_table(chk.rng, [f for _, f in keep], [tn for tn, _ in keep])
+                df, kind, cols = make_table(chk.rng, [f for _, f in keep], [tn for tn, _ in keep], reverse_pos=chk.rng.random() < 0.3)
                 snap = snapshot(df)
-                out = tp.link(df, srf, pos_columns=cols, **kw)
+                guess = len(cols) >= 2 and chk.rng.random() < 0.4
+                out = tp.link(df, srf, **kw) if guess else tp.link(df, srf, pos_columns=cols, **kw)
+                chk.tally('link pos_columns guessed' if guess else 'link pos_columns given')
                 why = same_table(df, snap)
                 if why:
                     chk.violation('link: caller table modified', 'tp.link modified the caller\'s table: ' + why,
@@ -185,15 +200,18 @@ def _run(chk):
                 chk.tally('link index=' + kind)
             elif entry == 'link_df_iter':
                 dfs, snaps, colss = [], [], None
+                revp = chk.rng.random() < 0.5
                 for tn, f in zip(numbers, frames):
                     if len(f):
-                        d, kind, colss = make_table(chk.rng, [f], [tn])
+                        d, kind, colss = make_table(chk.rng, [f], [tn], reverse_pos=revp)
                     else:
                         ndim = f.shape[1]
                         colss = ['x', 'y', 'z'][:ndim][::-1]
                         d = pd.DataFrame({**{cc: [] for cc in colss}, 'frame': np.array([], dtype=int), '_rid': np.array([], dtype=int)})
                     dfs.append(d); snaps.append(snapshot(d))
-                outs = list(tp.link_df_iter(dfs, srf, pos_columns=colss, **kw))
+                guess = len(colss) >= 2 and all(len(d) for d in dfs) and chk.rng.random() < 0.6
+                outs = list(tp.link_df_iter(dfs, srf, **kw)) if guess else list(tp.link_df_iter(dfs, srf, pos_columns=colss, **kw))
+                chk.tally('link_df_iter pos_columns guessed' if guess else 'link_df_iter pos_columns given')
                 bad = None
                 for d, s, o in zip(dfs, snaps, outs):
                     bad = bad or same_table(d, s)
